@@ -105,6 +105,11 @@ func (ctx *cbcAEAD) Open(dst, nonce, ciphertext, data []byte) ([]byte, error) {
 		return nil, errors.New("square/go-jose: invalid ciphertext (too short)")
 	}
 
+	// The CBC decrypter panics for an IV which is not a block.
+	if len(nonce) != ctx.NonceSize() {
+		return nil, errors.New("square/go-jose: invalid nonce (invalid length)")
+	}
+
 	offset := len(ciphertext) - ctx.authtagBytes
 	expectedTag := ctx.computeAuthTag(data, nonce, ciphertext[:offset])
 	match := subtle.ConstantTimeCompare(expectedTag, ciphertext[offset:])
